@@ -162,6 +162,15 @@ def findParam (ps : List Param) (n : String) : Option Param :=
   | [] => Option.none
   | p :: rest => if p.name == n then some p else findParam rest n
 
+/-- requiredness and default of one attribute: constructor parameter default `pd` against the
+    schema attribute (`optional` = the class field is `Optional[Attr…]`, `k` its kind). -/
+def defaultOK (optional : Bool) (k : AttrKind) (pd : Option Val) (a : SAttr) : Bool :=
+  if a.required then !optional && pd.isNone && a.default == Val.none
+  else if a.default == Val.none then optional && pd == some Val.none
+  else !optional && match pd with
+    | some v => v != Val.none && encode k v == a.default
+    | Option.none => false
+
 /-- One attribute: class field, constructor wiring and parameter against the schema attribute. -/
 def attrOK (ps : List Param) (f : AttrField) (w : AttrWire) (a : SAttr) : Bool :=
   f.name == a.name && w.field == a.name && w.onnxName == a.name && w.param == a.name &&
@@ -170,18 +179,10 @@ def attrOK (ps : List Param) (f : AttrField) (w : AttrWire) (a : SAttr) : Bool :
   | Option.none => false
   | some p =>
     p.kwOnly &&
-    match a.type with
-    | .GRAPH =>
-      -- deviation: GRAPH attributes are taken as Python callbacks, built by `subgraph(...)`
-      w.viaSubgraph && p.kind == .callback && a.required && !f.optional && p.default.isNone
-    | _ =>
-      !w.viaSubgraph && p.kind == .attr &&
-      if a.required then !f.optional && p.default.isNone
-      else match a.default with
-        | .none => f.optional && p.default == some Val.none
-        | d => !f.optional && match p.default with
-            | some v => v != Val.none && encode f.kind v == d
-            | Option.none => false
+    -- deviation: GRAPH attributes are taken as Python callbacks, built by `subgraph(...)`
+    (if a.type == .GRAPH then w.viaSubgraph && p.kind == .callback && a.required
+     else !w.viaSubgraph && p.kind == .attr) &&
+    defaultOK f.optional f.kind p.default a
 
 def attrsOK (ps : List Param) : List AttrField → List AttrWire → List SAttr → Bool
   | [], [], [] => true
